@@ -1648,6 +1648,13 @@ fn main() {
                 c11::<Lut>(c, n);
                 c.rng = Rng(s);
                 with_static!(n, c11(&mut *c, n));
+                if n <= 9 {
+                    // ordering, equality, hashing, the iterator: identical pairs on both types
+                    c.rng = Rng(s);
+                    c08::<Lut>(c, n);
+                    c.rng = Rng(s);
+                    with_static!(n, c08(&mut *c, n));
+                }
                 if n <= 5 {
                     c.rng = Rng(s);
                     c04::<Lut>(c, n);
